@@ -122,12 +122,22 @@ package ecs
 //@   forall t int :: __trigger(s.tables[t].cap) && (0 <= t && t < len(s.tables) ==>
 //@      s.tables[t].len <= s.tables[t].cap && s.tables[t].len <= 1<<31 && uint64(s.tables[t].archetype) < uint64(len(s.archetypes)))
 
+// FreeTable (C04, C15): a freed table leaves every lookup structure of its archetype: the list of
+// active tables and, for each of its relation columns, the per-column list and the per-target
+// list of that column's target (whatever the target is, the zero entity included, and however
+// many relation columns the archetype has).
+//@ spec func unindexed(a *archetype, t *__T_table, j int) bool :=
+//@   !t.columns[j].isRelation || ((!__has(a.relationTables[j], t.columns[j].target.id) || !tidsHas(__get(a.relationTables[j], t.columns[j].target.id), t.id))
+//@        && (!__has(a.targetTables, t.columns[j].target.id) || !tidsHas(__get(a.targetTables, t.columns[j].target.id), t.id)))
 //@ func (*archetype).FreeTable
 //@   serves C15 C04
-//@   trusted
-//@   requires table != nil
+//@   requires table != nil && archListsInv(a) && len(table.columns) == len(a.relationTables) && uint64(len(a.freeTables)) < 1<<32
+//@   loop 1 invariant lists: archListsInv(a) && len(table.columns) == len(a.relationTables)
+//@   loop 1 invariant done: forall j int :: 0 <= j && j < __idx ==> unindexed(a, table, j)
+//@   loop 1 invariant active: !tidsHas(&a.tables, table.id) && table.isFree
 //@   ensures  freed: table.isFree
-//@   ensures  others: forall t2 *__T_table :: t2 != table ==> t2.isFree == old(t2.isFree)
+//@   ensures  inactive: !tidsHas(&a.tables, table.id)
+//@   ensures  unindexed: forall j int :: 0 <= j && j < len(table.columns) ==> unindexed(a, table, j)
 
 //@ func (*storage).Shrink
 //@   serves C15
